@@ -121,8 +121,8 @@ theorem imports_agree_with_model (bodyReq modelReq : List (String × Nat))
   rw [hv', this]
 
 open FuncSem in
-/-- **A call means its body.** For any operator semantics `S`, any straight-line program with function
-    calls at any number of call sites and any nesting depth: if the build produces a function table
+/-- **A call means its body.** For any operator semantics `S`, any straight-line program with (multi-output)
+    function calls at any number of call sites and any nesting depth: if the build produces a function table
     (`buildTable` — one definition per key, differs ⇒ error), then evaluating the built model the ONNX
     way (a call node carries only its key; the definition is looked up in the table and run on the
     actual arguments) gives exactly what the Python bodies compute. -/
@@ -155,7 +155,7 @@ example : toModel (.mk [.call ("dom", "f") 1 (.mk [.op]), .ctrl [.mk [.call ("do
     = none := by decide
 example : getV (funcImports [("", 19), ("ai.onnx", 17)] [("", 18), ("dom", 0)]) "" = some 19 := by decide
 open FuncSem in
-example : evalO (fun l xs => l + xs.sum) 0 [(5, ⟨[.op 1 [0, 0]], 1⟩)] 1 [.call 5 [0], .call 5 [1]] [10]
-    = some [10, 21, 43] := by simp [evalO, Func.lookup]
+example : evalO (fun l xs => l + xs.sum) 0 [(5, ⟨[.op 1 [0, 0]], [1, 0]⟩)] 1 [.call 5 [0], .call 5 [1]] [10]
+    = some [10, 21, 10, 43, 21] := by simp [evalO, Func.lookup]
 
 end C14
